@@ -309,6 +309,10 @@ TOL = 1e-9      # data are small integers / dyadic rationals: a wrong order, sig
                 # eigen-based paths (Toeplitz, MulLinearOperator roots) return them with ~1e-13 noise
 
 
+LOW_PREC = (torch.float32, torch.float16, torch.bfloat16)
+F32_VALUE_TOL = 2e-5   # a wrong order, sign or operand is off by >= 0.25 on data of magnitude <= a few hundred
+
+
 def same_value(a, b, tol=TOL):
     if isinstance(a, tuple) or isinstance(b, tuple):
         return isinstance(a, tuple) and isinstance(b, tuple) and len(a) == len(b) and all(same_value(x, y, tol) for x, y in zip(a, b))
@@ -328,6 +332,9 @@ def same_value(a, b, tol=TOL):
         return False
     if a.dtype == torch.bool or b.dtype == torch.bool:
         return bool((a.to(torch.float64) == b.to(torch.float64)).all())
+    if tol != 0.0 and (a.dtype in LOW_PREC or b.dtype in LOW_PREC):
+        # single precision: a legitimate route may round (RootLinearOperator * 2 scales the root by sqrt(2): 3.9999998 for 4)
+        tol = max(tol, F32_VALUE_TOL)
     a, b = a.to(torch.float64), b.to(torch.float64)
     na, nb = torch.isnan(a), torch.isnan(b)
     if bool((na != nb).any()):
@@ -2100,11 +2107,18 @@ def correspondence(ctx, meta, rng, coq=True, width=None, broken=None):
             c = lst[i]
             ctx.violation({"kind": "model-implementation-disagreement", "layer": "dispatch", "call": c["call"], "arg_kinds": c["kinds"],
                            "observed": list(c["obs"]), "correspondence": "coq/C15/Check.v dcase_ok (dispatch W vs the spied package)"}, no_input=True)
-    n_model_dis = 0
+    n_model_dis = n_f32_rounded = 0
     for i in mism["v"]:
         case, out, fail, key = vouts[i]
         if fail and fail != "differs-from-method":
             continue        # the implementation violates the property here (reported above with its key); the model follows the contract
+        if (not fail and case.get("dtype", "float64") == "float32" and out["res"][0] != "err" and out["oracle"][0] != "err"
+                and same_value(out["res"][1], out["oracle"][1], F32_VALUE_TOL)):
+            # single precision: the exact rational answer of the model and a legitimately rounded float32 result differ by more
+            # than the 1e-9 of Check.v (RootLinearOperator * 2 scales the root by sqrt 2); the direct predicate, with the float32
+            # tolerance, has accepted the value against torch on the dense operands
+            n_f32_rounded += 1
+            continue
         n_model_dis += 1
         if n_model_dis <= 5:
             ctx.violation({"kind": "model-implementation-disagreement", "layer": "value", "case": {"call": case["call"], "args": case["args"], "kw": case["kw"]},
@@ -2151,7 +2165,7 @@ def correspondence(ctx, meta, rng, coq=True, width=None, broken=None):
         "dispatch_only_observations": n_dispatch_only, "dispatch_calls_rejected_by_torch_parser": n_parser,
         "unregistered_probes": n_u, "unregistered_reached_handler": len(ucs), "unregistered_unreached": len(unreached),
         "unregistered_functions": len(ufuncs),
-        "value_cases": len(vouts), "value_classes": len(insts), "function_cases": len(fouts),
+        "value_cases": len(vouts), "float32_values_rounded_not_compared_with_the_exact_model": n_f32_rounded, "value_classes": len(insts), "function_cases": len(fouts),
         "direct_only_cases": len(xouts), "direct_only_failing": sum(1 for c, o, f, k in xouts if f),
         "direct_only_forms": sorted({"%s|%s|%s|pos%d" % (c["call"], c.get("okind"), ",".join(sorted(c["kw"])), max(0, len(c["args"]) - 2)) for c, o, f, k in xouts})[:400],
         "function_cases_with_dense_comparison": sum(1 for c, o, f in fouts if c["l2"]), "function_failing_keys": len(ffails),
